@@ -351,7 +351,7 @@ def reporters(ctx):
                             ctx.require(ok, 'C17.S4', '%s: %s annualises with the reporter\'s configured periods' % (host, name), e.site,
                                         fmt(args[1]) if len(args) > 1 else 'default', key='C17.S4|%s|%s|periods' % (host, name))
             break
-    ctx.floor('C17.S3', 'perf.* call sites in the reporters', n, 9)
+    ctx.floor('C17.S3', 'perf.* call sites in the reporters', n, 4)
     # the tearsheet's text panel reads its series from the same results dict
     fn = ctx.fn('TearsheetStatistics.get_results')
     ps = summarise(ctx, fn, policy=no_inline)
